@@ -384,6 +384,56 @@ func (s *session) waitParked(tid uint64) bool {
 	return false
 }
 
+var (
+	topStepOutOnce sync.Once
+	topStepOutOK   bool
+)
+
+// topLevelStepOutOK probes once per process whether `stepout` for a thread
+// suspended outside any call still panics (candidate 24, owned by C16).
+func topLevelStepOutOK() bool {
+	topStepOutOnce.Do(func() {
+		p := &prog{src: "a := 1\nb := 2\n", nlines: 2}
+		x, err := prepare(p)
+		if err != nil {
+			return
+		}
+		defer x.close()
+		dbg := interpreter.NewECALDebugger(x.vs)
+		dbg.SetBreakPoint(srcName, 1)
+		x.erp.Debugger = dbg
+		x.start()
+		suspended := false
+		for i := 0; i < 20000 && !suspended; i++ {
+			if st, ok := dbg.Status().(map[string]interface{}); ok {
+				if th, ok := st["threads"].(map[string]map[string]interface{}); ok {
+					if r, ok := th[fmt.Sprint(x.tid)]["threadRunning"].(bool); ok && !r {
+						suspended = true
+					}
+				}
+			}
+			pause(100 * time.Microsecond)
+		}
+		if !suspended {
+			return
+		}
+		pause(2 * time.Millisecond) // let it reach the wait (set-up only)
+		_, _, panicked := core.Guard(func() { dbg.Continue(x.tid, util.StepOut) })
+		topStepOutOK = !panicked
+		// let the probe thread finish whatever happened
+		for i := 0; i < 20000; i++ {
+			select {
+			case <-x.done:
+				return
+			default:
+			}
+			core.Guard(func() { dbg.Continue(x.tid, util.Resume) })
+			pause(200 * time.Microsecond)
+		}
+	})
+	return topStepOutOK
+}
+
 // gated tells whether the wait event h is the one held by the scenario's gate.
 func (s *session) gated(h hookEv) bool {
 	return s.gate != nil && s.gate.Holding() && s.gate.HeldAt == h.seq
@@ -444,9 +494,9 @@ func (s *session) step() int {
 		if s.drain {
 			cmd = "resume"
 		}
-		if cmd == "stepout" && t.callDepth == 0 {
-			// candidate 24: stepout at top level panics; until repaired it is
-			// issued only inside a call (C16 owns the top-level case)
+		if cmd == "stepout" && t.callDepth == 0 && !topLevelStepOutOK() {
+			// candidate 24: stepout at top level panics (C16 owns that); as
+			// long as a probe sees the panic it is issued only inside a call
 			cmd = "stepover"
 		}
 		s.cont(t.tid, cmd)
